@@ -15,7 +15,7 @@ from pjrpc.common import UNSET, MaybeSet, UnsetType, exceptions
 from pjrpc.common.typedefs import Func
 from pjrpc.server import Method, utils
 
-from . import Specification, extractors
+from . import Specification, extractors, get_excluded_params
 
 Json = Union[str, int, float, dict, bool, list, tuple, set, None]  # type: ignore[type-arg]
 JsonSchema = Dict[str, Any]
@@ -498,7 +498,7 @@ class OpenRPC(Specification):
                 method.name,
                 method.method,
                 ref_template=f'{request_ref_prefix}{{model}}',
-                exclude=[method.context] if method.context else [],
+                exclude=get_excluded_params(method),
             )
             params_descriptors = [
                 ContentDescriptor(
